@@ -232,7 +232,8 @@ func (c *chunkReader) Read(p []byte) (int, error) {
 //	sth  iotest.HalfReader                      ste4 DataErrReader over 4096-byte reads
 //	sts  io.NewSectionReader with a limit beyond the data
 //	stz  a reader that returns (0, nil) before every chunk (allowed by io.Reader)
-var streamNames = []string{"st", "st1", "stw", "ste", "ste4", "sto", "sth", "sts", "stz"}
+//	stb  fills the whole buffer on every Read      stbe the same, io.EOF together with the last buffer
+var streamNames = []string{"st", "st1", "stw", "ste", "ste4", "sto", "sth", "sts", "stz", "stb", "stbe"}
 
 // zeroThenData returns (0, nil) on every other call.
 type zeroThenData struct {
@@ -273,6 +274,10 @@ func streamFields(lg *ledger, a *digestAlgo, s []byte) string {
 				r = struct{ io.Reader }{io.NewSectionReader(bytes.NewReader(clone(s)), 0, int64(len(s))+1000)}
 			case "stz":
 				r = &zeroThenData{r: &chunkReader{b: clone(s), n: 1 + len(s)/2}}
+			case "stb": // fills the whole buffer it is given on every Read (huge single reads)
+				r = &chunkReader{b: clone(s), n: 1 << 30}
+			case "stbe": // … and reports io.EOF together with the last (possibly full) buffer
+				r = iotest.DataErrReader(&chunkReader{b: clone(s), n: 1 << 30})
 			}
 			o, err := a.stream(r)
 			lg.keep(o)
